@@ -197,6 +197,27 @@ func monitor(prop string, h *History, res *common.Result) {
 					return
 				}
 			}
+			// an admin unlock releases THAT hold (for a name alone: one hold of the name) and no other:
+			// every other hold's bookkeeping entry and capacity stay
+			if s.Op.Kind == "ipcunlock" && s.Resp.Ok && s.Before != nil {
+				k := s.Op.Key
+				if k == "" {
+					k = s.Op.Chosen
+				}
+				self := fmt.Sprintf("%s/%s/", impl.Tok(s.Op.Name), impl.Tok(k))
+				for _, pair := range [][2][]string{{holdsOfListing(s.Before), holdsOfListing(v)}, {holdsOfTable(s.Before), holdsOfTable(v)}} {
+					after := map[string]bool{}
+					for _, e := range pair[1] {
+						after[e] = true
+					}
+					for _, e := range pair[0] {
+						if !after[e] && !strings.HasPrefix(e, self) {
+							viol(res, prop, "seq:ipc:unlock-released-other-hold", fmt.Sprintf("%q also released %s, a different hold (the admin unlock of a name, or of a name and key, releases one hold)", s.Op.Line(), e), h, i, nil)
+							return
+						}
+					}
+				}
+			}
 			// an admin unlock that reports success has the whole effect of the holder's own Unlock: the hold is
 			// gone from the lock table, the listing, the state file and the lease timers
 			if s.Op.Kind == "ipcunlock" && s.Resp.Ok {
@@ -520,10 +541,17 @@ func nameOfReq(h *History, req int) string {
 func restartMonitor(prop string, h *History, res *common.Result) {
 	restoredAt := map[string]int64{} // "name/key" restored by the latest restart and not touched since -> restart instant
 	ended := map[string]bool{} // "name/key" that ended at some point (never to come back)
+	fresh := map[string]bool{} // sessions connected after the latest restart: they own no restored hold
 	for i := range h.Steps {
 		s := &h.Steps[i]
 		if h.TieAt >= 0 && i >= h.TieAt || strings.HasPrefix(s.Impl, "panic ") || strings.HasPrefix(s.Impl, "start-failed ") {
 			return
+		}
+		switch s.Op.Kind {
+		case "restart", "restartwith":
+			fresh = map[string]bool{}
+		case "connect":
+			fresh[s.Op.Sid] = true
 		}
 		if s.Before != nil {
 			// anything held before this step and not held after it has ended
@@ -559,6 +587,10 @@ func restartMonitor(prop string, h *History, res *common.Result) {
 			for nk, t0 := range restoredAt {
 				switch {
 				case !after[nk] && s.Now < t0+int64(h.Cfg.Dlt):
+					if s.Op.Kind == "disconnect" && fresh[s.Op.Sid] {
+						viol(res, prop, "seq:restart:restored-hold-ended-by-stranger", fmt.Sprintf("restored hold %s (restart at %d) is gone after %q: the end of a session that connected after the restart and never held it", nk, t0, s.Op.Line()), h, i, nil)
+						return
+					}
 					if s.Op.Kind == "unlock" || s.Op.Kind == "ipcunlock" || s.Op.Kind == "restart" || s.Op.Kind == "restartwith" || s.Op.Kind == "disconnect" {
 						delete(restoredAt, nk)
 						continue
